@@ -105,6 +105,11 @@ func (d *tsdbDB) touch(e *childEnv, ts int64, dataDir string) tsdb.DataFamily {
 		d.created[b.FamStart] = b
 		r.Count("tsdb/"+d.typ+"/families_created", 1)
 	}
+	if cal.hasDST() {
+		if sit := cal.dstSituation(ts); sit != "" {
+			r.Count("tsdb/dst/"+d.typ+"/touches_"+sit, 1)
+		}
+	}
 	if k := boundaryKind(b, ts); k != "" {
 		r.Nontrivial(e.tz + "|tsdb|" + d.typ + "|" + b.SegName + "|" + k)
 		r.Count("tsdb/"+d.typ+"/touches_at_boundary_"+k, 1)
@@ -168,6 +173,12 @@ func (d *tsdbDB) query(e *childEnv, a, bb int64, phase string) {
 			r.Violation(cls("get-data-families-returns-family-outside-range"), fmt.Sprintf("%s: GetDataFamilies([%d(%s), %d(%s)]) returns the family starting %d(%s) which does not overlap the range",
 				d.typ, a, cal.fmt(a), bb, cal.fmt(bb), s, cal.fmt(s)), e.wit("db", d.name, "query", []int64{a, bb}, "extra", s, "got", gotList))
 			break
+		}
+	}
+	if cal.hasDST() {
+		// a range that lies in the last hour of a 25 h day / the first hour after a 23 h day and has a family to find
+		if sa, sb := cal.dstSituation(a), cal.dstSituation(bb); len(want) > 0 && sa == sb && (sa == "25h-day-25th-hour" || sa == "first-hour-after-23h-day") && bb-a < msHour {
+			r.Count("tsdb/dst/"+d.typ+"/"+phase+"/range_queries_inside_"+sa+"_with_hits", 1)
 		}
 	}
 	r.Count("tsdb/"+d.typ+"/"+phase+"/range_queries_"+shape, 1)
@@ -296,8 +307,17 @@ func runTsdb(e *childEnv) {
 		hot = sub
 	}
 	r.Count("tsdb/hotspot_days", len(hot))
+	// zones that move their clock: a seeded selection of 23 h and 25 h days (thorough: all of them)
+	dstDays := pickTransitionDays(cal, e.seed+int64(e.shard), e.pick(4, 1000))
+	r.Count("tsdb/dst/transition_days_touched", len(dstDays))
 	for _, d := range dbs {
 		var tss []int64
+		for _, t := range dstDays {
+			// day start, around 23 h / 24 h after it (the ends a fixed-length day would have), the real day end,
+			// the first hour of the following day, a random instant of the day
+			tss = append(tss, t.Start, t.Start-1, t.Start+23*msHour-1, t.Start+23*msHour, t.Start+msDay-1, t.Start+msDay,
+				t.Next-1-rnd.Int63n(msHour), t.Next-1, t.Next, t.Next+rnd.Int63n(msHour), t.Start+rnd.Int63n(t.Len()))
+		}
 		for _, h := range hot {
 			// h is a local day start (month starts, month ends, leap days, year ends, random days)
 			switch d.typ {
@@ -352,7 +372,7 @@ func runTsdb(e *childEnv) {
 			batch.Release()
 		}
 		nq := e.pick(1500, 20_000)
-		queries := d.genQueries(rnd, cal, nq)
+		queries := append(dstQueries(rnd, dstDays, d.interval), d.genQueries(rnd, cal, nq)...)
 		for _, q := range queries {
 			d.query(e, q[0], q[1], "live")
 		}
@@ -375,7 +395,7 @@ func runTsdb(e *childEnv) {
 		}
 		d.shard = sh
 		d.fams = map[int64]tsdb.DataFamily{}
-		queries := d.genQueries(rnd, cal, e.pick(600, 8000))
+		queries := append(dstQueries(rnd, dstDays, d.interval), d.genQueries(rnd, cal, e.pick(600, 8000))...)
 		for _, q := range queries {
 			d.query(e, q[0], q[1], "reopened")
 		}
@@ -403,4 +423,61 @@ func countDirs(root string) int {
 		return nil
 	})
 	return n
+}
+
+// pickTransitionDays returns up to n 23 h days and up to n 25 h days of the window, chosen by the seed.
+func pickTransitionDays(cal *calendar, seed int64, n int) []transitionDay {
+	var short, long, out []transitionDay
+	for _, t := range cal.transitions() {
+		if t.Start <= cal.windowStart()+msDay || t.Next >= cal.windowEnd()-2*msDay {
+			continue
+		}
+		if t.Len() < msDay {
+			short = append(short, t)
+		} else {
+			long = append(long, t)
+		}
+	}
+	for _, l := range [][]transitionDay{short, long} {
+		if len(l) == 0 {
+			continue
+		}
+		k := int(splitmix(uint64(seed)) % uint64(len(l)))
+		for i := 0; i < n && i < len(l); i++ {
+			out = append(out, l[(k+i*3)%len(l)])
+		}
+	}
+	sort.Slice(out, func(i, j int) bool { return out[i].Start < out[j].Start })
+	// (k+i*3)%len may repeat a day when n is large: deduplicate
+	var ded []transitionDay
+	for i, t := range out {
+		if i == 0 || t.Start != out[i-1].Start {
+			ded = append(ded, t)
+		}
+	}
+	return ded
+}
+
+// dstQueries: ranges around the places where a local day of 23 h / 25 h differs from a 24 h day: inside the hour
+// after start+23 h, inside the hour after start+24 h (the 25th hour of a 25 h day, the first hour of the day after
+// a 23 h day), across those instants and across the real day end; raw and truncated to the interval.
+func dstQueries(rnd *rand.Rand, days []transitionDay, interval int64) [][2]int64 {
+	var out [][2]int64
+	for _, t := range days {
+		for _, base := range []int64{t.Start + 23*msHour, t.Start + msDay, t.Next - msHour, t.Next} {
+			x := rnd.Int63n(msHour / 2)
+			y := x + rnd.Int63n(msHour/2)
+			qs := [][2]int64{
+				{base + x, base + y},                      // inside the hour
+				{base, base + msHour - 1},                 // exactly the hour
+				{base + x, base + x},                      // a point
+				{base - 1 - rnd.Int63n(msHour), base + x}, // across its start
+				{base - 1, base - 1}, {base, base},
+			}
+			for _, q := range qs {
+				out = append(out, q, [2]int64{q[0] / interval * interval, q[1] / interval * interval})
+			}
+		}
+	}
+	return out
 }
